@@ -582,6 +582,13 @@ auto rcu_list<T, M, Alloc>::erase(const_iterator iter) -> iterator
     // make sure the node has not already been marked for deletion
     node* oldNextOrig = iter.m_current->next.load();
     if (!iter.m_current->deleted) {
+        // get the log record first: if the allocator throws, the list has
+        // not been touched yet and the node is not lost
+        auto newZombie = zombie_alloc_trait::allocate(m_zombie_alloc, 1);
+        zombie_alloc_trait::construct(m_zombie_alloc,
+                                      newZombie,
+                                      iter.m_current);
+
         iter.m_current->deleted = true;
 
         node* oldPrev = iter.m_current->back.load();
@@ -600,11 +607,6 @@ auto rcu_list<T, M, Alloc>::erase(const_iterator iter) -> iterator
             // no next node, this node was the tail
             m_tail.store(oldPrev);
         }
-
-        auto newZombie = zombie_alloc_trait::allocate(m_zombie_alloc, 1);
-        zombie_alloc_trait::construct(m_zombie_alloc,
-                                      newZombie,
-                                      iter.m_current);
 
         zombie_list_node* oldZombie = m_zombie_head.load();
 
